@@ -61,6 +61,10 @@ def parse_viol(line):
 def run_stream(job, seed, tier, tmpdir, deadline, chunk, results, wid, max_viols):
     """worker thread: keeps starting harness processes on fresh index ranges until the deadline"""
     sigfile = os.path.join(tmpdir, "sig-%s-%s-%d.bin" % (job.cls, job.flavour, wid))
+    # replay files are named after (class, seed, run index): every job writes into its own directory, otherwise two
+    # build flavours that fail on the same run write the same file at the same time (mixed, invalid JSON)
+    outdir = os.path.join(tmpdir, "out-%d" % id(job))
+    os.makedirs(outdir, exist_ok=True)
     while time.time() < deadline:
         with job.lock:
             if len(job.viols) >= max_viols:
@@ -75,7 +79,7 @@ def run_stream(job, seed, tier, tmpdir, deadline, chunk, results, wid, max_viols
         pos = start
         end = start + chunk
         while pos < end and time.time() < deadline:
-            cmd = job.cmd(seed, pos, end - pos, tier, tmpdir, sigfile, max(0.5, deadline - time.time()))
+            cmd = job.cmd(seed, pos, end - pos, tier, outdir, sigfile, max(0.5, deadline - time.time()))
             try:
                 r = subprocess.run(cmd, stdout=subprocess.PIPE, stderr=subprocess.PIPE, text=True, env=env,
                                    timeout=max(30, deadline - time.time() + 200), errors="replace")
